@@ -350,6 +350,10 @@ func (g *valueGen) fill(n *Node, v reflect.Value, label string) {
 				g.Labels["custom_refuses"] = true
 			}
 			v.Set(reflect.ValueOf(CustomU24{V: x}))
+		case "p16":
+			v.Set(reflect.ValueOf(CustomP16{V: uint16(g.drawUint(16, label))}))
+		case "pr":
+			v.Set(reflect.ValueOf(CustomPR{V: uint8(g.drawUint(8, label))}))
 		case "var":
 			l := rapid.IntRange(0, 4).Draw(g.t, label+".len")
 			v.Set(reflect.ValueOf(CustomVar{B: append([]byte{}, g.drawBytes(l, label)...)}))
